@@ -364,10 +364,16 @@ def change_db_column_and_db_index_together(case, outcome, atoms):
                     for f in m['fields']:
                         if f['uid'] == uid and f['db_index'] and f['kind'] != 'ManyToMany':
                             hit[(S.table_of(a, m), S.column_of(f))] = S.column_of(f0)
-    triggered = bool(hit) or any(
-        mut['kind'] == 'ChangeField' and not mut.get('field_kind') and
-        mut['attrs'].get('db_index') is True and 'db_column' in mut['attrs']
-        for mut in case['seq'])
+    trig_tables = set()
+    if case.get('mode') != 'hinted':
+        for i, mut in enumerate(case['seq']):
+            if mut['kind'] == 'ChangeField' and not mut.get('field_kind') and \
+                    mut['attrs'].get('db_index') is True and 'db_column' in mut['attrs']:
+                for sp in trail[i:]:
+                    for a_, n_, m_ in S.iter_models(sp):
+                        if m_['uid'] == S.get_model(trail[i], mut['app'], mut['model'])['uid']:
+                            trig_tables.add(S.table_of(a_, m_))
+    triggered = bool(hit) or bool(trig_tables)
     if not triggered:
         return atoms
     out = []
@@ -379,8 +385,9 @@ def change_db_column_and_db_index_together(case, outcome, atoms):
             col = a[3][1][0][0]
             if a[4] == 'missing' and (a[1], col) in hit:
                 continue
-            if a[4] == 'extra' and col is None and any(t == a[1] for t, _c in hit):
-                continue
+            if a[4] == 'extra' and col is None and (any(t == a[1] for t, _c in hit) or
+                                                    a[1] in trig_tables):
+                continue        # the bogus expression index itself (it outlives db_index=False)
         out.append(a)
     return out
 
@@ -449,6 +456,67 @@ def renamed_indexed_field_keeps_index_name(case, outcome, atoms):
     return [a for a in atoms
             if not (a[0] == 'exception' and a[2] == 'DatabaseStateError' and
                     'already exists' in str(a[4]))]
+
+
+@explainer
+def type_change_ignores_not_null_initial(case, outcome, atoms):
+    """A ChangeField that changes the field type *and* makes the column NOT NULL
+    with an initial value: on SQLite the type change is lowered to a 'CHANGE
+    COLUMN TYPE' rebuild that knows nothing about the initial value, so existing
+    NULLs are copied into the NOT NULL column: IntegrityError 'NOT NULL
+    constraint failed: TEMP_TABLE.<column>'."""
+    from . import specs as S
+    trail = _trail(case)
+    trig = False
+    if case.get('mode') == 'hinted':
+        start, final = trail[0], trail[-1]
+        for a, n, m in S.iter_models(final):
+            m0 = S.get_model(start, a, n)
+            if m0 is None:
+                continue
+            for f in m['fields']:
+                f0 = S.get_field(m0, f['name'])
+                if f0 is not None and f0['kind'] != f['kind'] and f0['null'] and not f['null'] \
+                        and 'ManyToMany' not in (f0['kind'], f['kind']):
+                    trig = True
+    else:
+        for mut in case['seq']:
+            if mut['kind'] == 'ChangeField' and mut.get('field_kind') and \
+                    mut['attrs'].get('null') is False:
+                trig = True
+    if not trig:
+        return atoms
+    return [a for a in atoms
+            if not (a[0] == 'exception' and a[2] == 'IntegrityError' and
+                    'NOT NULL constraint failed: TEMP_TABLE' in str(a[4]))]
+
+
+@explainer
+def hint_adds_before_it_deletes_table_name(case, outcome, atoms):
+    """The hinted evolution lists additions before deletions: a many-to-many
+    table name that moves from a deleted model/field to a new field in the same
+    hint still exists when the new field is added: OperationalError 'table ...
+    already exists'."""
+    from . import specs as S
+    if case.get('mode') != 'hinted':
+        return atoms
+    trail = _trail(case)
+    start, final = trail[0], trail[-1]
+
+    def m2m_tables(sp):
+        out = {}
+        for a, n, m in S.iter_models(sp):
+            for f in m['fields']:
+                if f['kind'] == 'ManyToMany':
+                    out[S.m2m_table_of(a, m, f)] = f['uid']
+        return out
+    t0, t1 = m2m_tables(start), m2m_tables(final)
+    moved = {t for t in t0 if t in t1 and t0[t] != t1[t]}
+    if not moved:
+        return atoms
+    return [a for a in atoms
+            if not (a[0] == 'exception' and a[2] == 'OperationalError' and
+                    'already exists' in str(a[4]) and any(t in str(a[4]) for t in moved))]
 
 
 @explainer
